@@ -870,6 +870,30 @@ def r_register_found(cx):
             continue
         n += 1
         back = lp.header in f.reach_from([some], avoid=[])
+        # the text the tag is looked for in has had its carriage returns replaced: the tag ends in a line feed, so in a
+        # register with CR/LF line ends it is only found after that clean-up
+        hay = f.arg_terms(fb)[0]
+        cleaned = []
+        mir.walk(hay, lambda y: (cleaned.append(1) if y[0] == "call" and isinstance(y[1], str) and y[1].endswith("::replace") and
+                                 len(y[2]) > 1 and mir.strip_refs(y[2][1])[0] == "const" and
+                                 isinstance(mir.strip_refs(y[2][1])[2], tuple) and "\r" in str(mir.strip_refs(y[2][1])[2][1]) else None) or True)
+        cx.ob("R-REGISTER-FOUND", "get_resource/line-ends-first", bool(cleaned),
+              "the tag is looked for in the text with its line ends cleaned up" if cleaned else
+              "get_resource looks for the tag of a register item (which ends in a line feed) in the raw file text: in a register "
+              "with CR/LF line ends no item is found", cx.where(f.term(fb)["span"]))
+        # the closing fence is the bare fence: the last item of a file need not be followed by a line break
+        later = [b for b in sorted(f.reach_from([some], avoid=[])) if f.term(b)["k"] == "call" and
+                 (f.callee(f.term(b)) or "").endswith("str>::find")]
+        for ob_ in later:
+            if ob_ == fb:
+                continue
+            pat = mir.strip_refs(f.arg_terms(ob_)[1])
+            if pat[0] == "const" and isinstance(pat[2], tuple) and pat[2][0] == "str" and "```" in pat[2][1]:
+                cx.ob("R-REGISTER-FOUND", "get_resource/closing-fence", pat[2][1] == "```",
+                      "the end of an item is the bare closing fence" if pat[2][1] == "```" else
+                      "get_resource looks for the end of a register item as %r: a closing fence that is not followed by exactly "
+                      "that (the last line of a file, a fence followed by blanks) is not seen and the item swallows what follows" % pat[2][1],
+                      cx.where(f.term(ob_)["span"]))
         cx.ob("R-REGISTER-FOUND", "get_resource/tag-found", not back,
               "once the tag of a register item has been found, get_resource returns the item" if not back else
               "get_resource can go on to the next search directory (and end in NotFound) after it has found the tag of the "
